@@ -1,26 +1,29 @@
 //! Verification models of the std containers ggrs uses as finite maps/sets (encoding rewrite R1).
 //!
-//! Finite-map semantics over a slot vector `Vec<Option<(K, V)>>`: `remove`/`retain` clear a slot,
-//! `insert` of a new key reuses the first free slot or appends. No element is ever moved, so the
-//! model checker never sees a `memmove` with a symbolic length (what makes `Vec::remove`,
-//! `Vec::retain` and the real hash/tree maps intractable for CBMC). Iteration order is slot order -
+//! Finite-map semantics over a fixed array of CAP slots `[Option<(K, V)>; CAP]` stored inline (no
+//! heap): `remove`/`retain` clear a slot, `insert` of a new key takes the first free slot. Every
+//! slot is read and written at a *concrete* index under a (possibly symbolic) guard, so the model
+//! checker sees neither a `memmove` with a symbolic length nor a write at a symbolic offset (what
+//! makes `Vec::remove`/`retain` and the real hash/tree maps intractable for CBMC). Exceeding CAP
+//! entries panics with "vcoll capacity" - the runner reports that as an encoding limit. Iteration order is slot order -
 //! an arbitrary but fixed order, as for a hash map with a fixed seed - or, under
 //! `--cfg ggrs_verif_permute`, a permutation chosen by the solver (sound over-approximation of
 //! every hash seed). `BTreeMap` iterates in ascending key order by selection.
 #![allow(dead_code)]
 use std::fmt;
 
-const PRESIZE: usize = 8;
+pub const CAP: usize = 8;
+const PRESIZE: usize = CAP;
 
 #[derive(Clone)]
 pub struct HashMap<K, V> {
-    slots: Vec<Option<(K, V)>>,
+    slots: [Option<(K, V)>; CAP],
     count: usize,
 }
 
 impl<K, V> Default for HashMap<K, V> {
     fn default() -> Self {
-        Self { slots: Vec::with_capacity(PRESIZE), count: 0 }
+        Self { slots: [const { None }; CAP], count: 0 }
     }
 }
 
@@ -52,7 +55,7 @@ fn permute<T>(v: &mut Vec<T>) {
 // ---------------------------------------------------------------- iterators (slot order)
 #[cfg(not(ggrs_verif_permute))]
 pub struct Iter<'a, K, V> {
-    slots: &'a [Option<(K, V)>],
+    slots: &'a [Option<(K, V)>; CAP],
     i: usize,
 }
 #[cfg(not(ggrs_verif_permute))]
@@ -60,7 +63,7 @@ impl<'a, K, V> Iterator for Iter<'a, K, V> {
     type Item = (&'a K, &'a V);
     fn next(&mut self) -> Option<(&'a K, &'a V)> {
         // index-based on purpose: slice iterators compare raw pointers, which is costly for CBMC
-        while self.i < self.slots.len() {
+        while self.i < CAP {
             let j = self.i;
             self.i += 1;
             if let Some((k, v)) = &self.slots[j] {
@@ -153,85 +156,97 @@ impl<K: PartialEq, V> HashMap<K, V> {
     }
     pub fn clear(&mut self) {
         let mut i = 0;
-        while i < self.slots.len() {
+        while i < CAP {
             self.slots[i] = None;
             i += 1;
         }
         self.count = 0;
     }
-    fn pos(&self, k: &K) -> Option<usize> {
+    fn matches(&self, i: usize, k: &K) -> bool {
+        match &self.slots[i] {
+            Some((kk, _)) => *kk == *k,
+            None => false,
+        }
+    }
+    pub fn insert(&mut self, k: K, v: V) -> Option<V> {
+        let mut kv = Some((k, v));
         let mut i = 0;
-        while i < self.slots.len() {
-            if let Some((kk, _)) = &self.slots[i] {
+        while i < CAP {
+            let hit = match (&self.slots[i], &kv) {
+                (Some((kk, _)), Some((k, _))) => *kk == *k,
+                _ => false,
+            };
+            if hit {
+                return match std::mem::replace(&mut self.slots[i], kv.take()) {
+                    Some((_, old)) => Some(old),
+                    None => None,
+                };
+            }
+            i += 1;
+        }
+        let mut i = 0;
+        while i < CAP {
+            if self.slots[i].is_none() {
+                self.slots[i] = kv.take();
+                self.count += 1;
+                return None;
+            }
+            i += 1;
+        }
+        panic!("vcoll capacity exceeded");
+    }
+    pub fn get(&self, k: &K) -> Option<&V> {
+        let mut i = 0;
+        while i < CAP {
+            if let Some((kk, v)) = &self.slots[i] {
                 if *kk == *k {
-                    return Some(i);
+                    return Some(v);
                 }
             }
             i += 1;
         }
         None
     }
-    fn free_slot(&mut self) -> usize {
+    pub fn get_mut(&mut self, k: &K) -> Option<&mut V> {
         let mut i = 0;
-        while i < self.slots.len() {
-            if self.slots[i].is_none() {
-                return i;
+        while i < CAP {
+            if self.matches(i, k) {
+                return match &mut self.slots[i] {
+                    Some((_, v)) => Some(v),
+                    None => None,
+                };
             }
             i += 1;
         }
-        self.slots.push(None);
-        self.slots.len() - 1
-    }
-    pub fn insert(&mut self, k: K, v: V) -> Option<V> {
-        match self.pos(&k) {
-            Some(i) => match self.slots[i].replace((k, v)) {
-                Some((_, old)) => Some(old),
-                None => None,
-            },
-            None => {
-                let i = self.free_slot();
-                self.slots[i] = Some((k, v));
-                self.count += 1;
-                None
-            }
-        }
-    }
-    pub fn get(&self, k: &K) -> Option<&V> {
-        match self.pos(k) {
-            Some(i) => match &self.slots[i] {
-                Some((_, v)) => Some(v),
-                None => None,
-            },
-            None => None,
-        }
-    }
-    pub fn get_mut(&mut self, k: &K) -> Option<&mut V> {
-        match self.pos(k) {
-            Some(i) => match &mut self.slots[i] {
-                Some((_, v)) => Some(v),
-                None => None,
-            },
-            None => None,
-        }
+        None
     }
     pub fn contains_key(&self, k: &K) -> bool {
-        self.pos(k).is_some()
+        let mut i = 0;
+        while i < CAP {
+            if self.matches(i, k) {
+                return true;
+            }
+            i += 1;
+        }
+        false
     }
     pub fn remove_entry(&mut self, k: &K) -> Option<(K, V)> {
-        match self.pos(k) {
-            Some(i) => {
+        let mut i = 0;
+        while i < CAP {
+            if self.matches(i, k) {
                 self.count -= 1;
-                self.slots[i].take()
+                return self.slots[i].take();
             }
-            None => None,
+            i += 1;
         }
+        None
     }
     pub fn remove(&mut self, k: &K) -> Option<V> {
         self.remove_entry(k).map(|(_, v)| v)
     }
     pub fn retain<F: FnMut(&K, &mut V) -> bool>(&mut self, mut f: F) {
         let mut i = 0;
-        while i < self.slots.len() {
+        while i < CAP {
             let keep = match &mut self.slots[i] {
                 Some((k, v)) => f(k, v),
                 None => true,
@@ -245,7 +260,7 @@ impl<K: PartialEq, V> HashMap<K, V> {
     }
     #[cfg(not(ggrs_verif_permute))]
     pub fn iter(&self) -> Iter<'_, K, V> {
-        Iter { slots: &self.slots[..], i: 0 }
+        Iter { slots: &self.slots, i: 0 }
     }
     #[cfg(not(ggrs_verif_permute))]
     pub fn values_mut(&mut self) -> ValuesMut<'_, K, V> {
@@ -290,17 +305,26 @@ pub struct Entry<'a, K, V> {
 }
 impl<'a, K: PartialEq, V> Entry<'a, K, V> {
     pub fn or_insert_with<F: FnOnce() -> V>(self, f: F) -> &'a mut V {
-        let i = match self.map.pos(&self.key) {
-            Some(i) => i,
-            None => {
-                let i = self.map.free_slot();
-                self.map.slots[i] = Some((self.key, f()));
-                self.map.count += 1;
-                i
+        if !self.map.contains_key(&self.key) {
+            let v = f();
+            // insert cannot hit an existing key here
+            let mut kv = Some((self.key, v));
+            let mut i = 0;
+            while i < CAP {
+                if self.map.slots[i].is_none() {
+                    self.map.slots[i] = kv.take();
+                    self.map.count += 1;
+                    return match &mut self.map.slots[i] {
+                        Some((_, v)) => v,
+                        None => unreachable!(),
+                    };
+                }
+                i += 1;
             }
-        };
-        match &mut self.map.slots[i] {
-            Some((_, v)) => v,
+            panic!("vcoll capacity exceeded");
+        }
+        match self.map.get_mut(&self.key) {
+            Some(v) => v,
             None => unreachable!(),
         }
     }
@@ -323,7 +347,10 @@ impl<K: PartialEq, V> IntoIterator for HashMap<K, V> {
     type Item = (K, V);
     type IntoIter = IntoIter<K, V>;
     fn into_iter(self) -> Self::IntoIter {
-        let mut v = self.slots;
+        let mut v: Vec<Option<(K, V)>> = Vec::with_capacity(CAP);
+        for s in self.slots {
+            v.push(s);
+        }
         permute(&mut v);
         IntoIter(v.into_iter())
     }
@@ -332,12 +359,11 @@ impl<K: PartialEq, V> IntoIterator for HashMap<K, V> {
 // ---------------------------------------------------------------- HashSet
 #[derive(Clone)]
 pub struct HashSet<K> {
-    slots: Vec<Option<K>>,
-    count: usize,
+    inner: HashMap<K, ()>,
 }
 impl<K> Default for HashSet<K> {
     fn default() -> Self {
-        Self { slots: Vec::with_capacity(PRESIZE), count: 0 }
+        Self { inner: HashMap::default() }
     }
 }
 impl<K: PartialEq> HashSet<K> {
@@ -345,58 +371,23 @@ impl<K: PartialEq> HashSet<K> {
         Self::default()
     }
     pub fn len(&self) -> usize {
-        self.count
-    }
-    fn pos(&self, k: &K) -> Option<usize> {
-        let mut i = 0;
-        while i < self.slots.len() {
-            if let Some(kk) = &self.slots[i] {
-                if *kk == *k {
-                    return Some(i);
-                }
-            }
-            i += 1;
-        }
-        None
+        self.inner.len()
     }
     pub fn contains(&self, k: &K) -> bool {
-        self.pos(k).is_some()
+        self.inner.contains_key(k)
     }
     pub fn insert(&mut self, k: K) -> bool {
-        if self.pos(&k).is_some() {
+        if self.inner.contains_key(&k) {
             return false;
         }
-        let mut i = 0;
-        while i < self.slots.len() {
-            if self.slots[i].is_none() {
-                break;
-            }
-            i += 1;
-        }
-        if i == self.slots.len() {
-            self.slots.push(None);
-        }
-        self.slots[i] = Some(k);
-        self.count += 1;
+        self.inner.insert(k, ());
         true
     }
     pub fn remove(&mut self, k: &K) -> bool {
-        match self.pos(k) {
-            Some(i) => {
-                self.slots[i] = None;
-                self.count -= 1;
-                true
-            }
-            None => false,
-        }
+        self.inner.remove_entry(k).is_some()
     }
     pub fn clear(&mut self) {
-        let mut i = 0;
-        while i < self.slots.len() {
-            self.slots[i] = None;
-            i += 1;
-        }
-        self.count = 0;
+        self.inner.clear()
     }
 }
 
@@ -420,7 +411,7 @@ impl<'a, K: Ord, V> Iterator for BIter<'a, K, V> {
     fn next(&mut self) -> Option<(&'a K, &'a V)> {
         let mut best: Option<(&'a K, &'a V)> = None;
         let mut i = 0;
-        while i < self.map.slots.len() {
+        while i < CAP {
             if let Some((k, v)) = &self.map.slots[i] {
                 let after_last = match self.last {
                     Some(l) => *k > *l,
